@@ -34,7 +34,7 @@ def generate(master, index, tier):
     n = rng.choice((1, 2, 3, 5, 8, 12, 20))
     mixes = ((0.4, 0.35, 0.25), (0.1, 0.8, 0.1), (0.8, 0.1, 0.1), (0.1, 0.1, 0.8))
     items = W.gen_wellformed_items(rng, n, p_filler=rng.choice((0.0, 0.08, 0.25)), mix=rng.choice(mixes))
-    if index % 50 == 7:
+    if index % 100 == 7:
         # deep filler history: > 1000 consecutive zero-length frames, then a frame
         items = W.gen_long_error_run(rng, rng.choice((300, 1100, 1600)), style=2) + [W.gen_frame(rng)]
     kind = rng.choice(("bytesio", "buffered", "socket", "socket", "serial"))
